@@ -258,6 +258,26 @@ def _unwrap(v):
             return v, wraps
 
 
+def _destructurings(fn, fl, min_targets=5):
+    """[(Assign node, IR of the destructured value)] for every tuple assignment with at least `min_targets` targets whose right-hand
+    side -- written in place or named in a local first -- is a str.split() result (possibly sliced)"""
+    out = []
+    for a in ast.walk(fn):
+        if isinstance(a, ast.Assign) and len(a.targets) == 1 and isinstance(a.targets[0], ast.Tuple) and len(a.targets[0].elts) >= min_targets:
+            names = [e.value if isinstance(e, ast.Starred) else e for e in a.targets[0].elts]
+            val = None
+            for e in names:
+                if isinstance(e, ast.Name):
+                    for v, loops, guards, line, seq in fl.assigns.get(e.id, []):
+                        if line == a.lineno and v[0] == "item":
+                            val = simp(v[1])
+                    if val is not None:
+                        break
+            if val is not None and any(isinstance(x, tuple) and len(x) == 5 and x[0] == "meth" and x[2] == "split" for x in walk(val)):
+                out.append((a, val))
+    return out
+
+
 def _split_formats(ctx, pkg):
     for cls, lay in LAYOUT.items():
         file = pkg.cls(cls).file
@@ -265,19 +285,20 @@ def _split_formats(ctx, pkg):
         fl = Flow(fn, file)
         n = lay["n"]
         # the destructuring
-        dest = [a for a in ast.walk(fn) if isinstance(a, ast.Assign) and isinstance(a.targets[0], ast.Tuple) and any(isinstance(e, ast.Starred) for e in a.targets[0].elts)
-                and "split" in ast.unparse(a.value)]
+        dest = [(a, v) for a, v in _destructurings(fn, fl, 3) if any(isinstance(e, ast.Starred) for e in a.targets[0].elts)]
         if len(dest) != 1:
             ctx.unrec("R3", f"{cls}:destructuring", (file, fn.lineno), f"expected one starred destructuring of the split record, found {len(dest)}")
             continue
-        d = dest[0]
+        d, dv = dest[0]
         elts = d.targets[0].elts
         star = [i for i, e in enumerate(elts) if isinstance(e, ast.Starred)][0]
         fixed = len(elts) - 1
-        src = ast.unparse(d.value)
-        sep_ok = f".split('{lay['sep']}')" in src
-        bound = re.search(r"\[:(\d+)\]$", src)
-        total = int(bound.group(1)) if bound else None
+        src = show(dv)
+        # the record is <line>.split(sep), possibly cut to its first N fields
+        b0 = match(("sub", V("sp"), ("slice", ("const", None), ("const", V("n")), ("const", None))), dv)
+        sp = b0["sp"] if b0 else dv
+        total = b0["n"] if b0 and isinstance(b0["n"], int) else None
+        sep_ok = sp[0] == "meth" and sp[2] == "split" and sp[3] == (("const", lay["sep"]),) and not sp[4]
         starlen = (total if total is not None else n) - fixed
         ctx.check(sep_ok, "R3", f"{cls}:separator", (file, d.lineno), f"records are split at '{lay['sep']}'", found=src[-40:])
         if cls == "UMISTReaction":
@@ -375,9 +396,13 @@ def _kida(ctx, pkg):
         ok = v[0] == "item" and v[1] == tail and v[2] == p and conv in wraps
         ctx.check(ok, "R5", f"KIDA:{attr}", (file, f.line), f"self.{attr} = {conv}(token {p} of the text after column 90)",
                   expected=f"{conv}(line[90:].split()[{p}])", found=show(simp(f.value))[:100])
-    dest = [a for a in ast.walk(fn) if isinstance(a, ast.Assign) and isinstance(a.targets[0], ast.Tuple) and "split" in ast.unparse(a.value) and len(a.targets[0].elts) > 5]
-    ctx.check(len(dest) == 1 and len(dest[0].targets[0].elts) == 13 and not any(isinstance(e, ast.Starred) for e in dest[0].targets[0].elts), "R3", "KIDA:arity", (file, fn.lineno),
-              "the numeric tail of a KIDA record has exactly 13 tokens", found=str(len(dest[0].targets[0].elts)) if dest else "none")
+    dest = [a for a, v in _destructurings(fn, fl, 6) if v == tail]
+    others = [a for a, v in _destructurings(fn, fl, 6) if v != tail]
+    if not dest:
+        ctx.unrec("R3", "KIDA:arity", (file, others[0].lineno if others else fn.lineno), "no destructuring of the blank-separated text after column 90 into named fields")
+    else:
+        ctx.check(len(dest) == 1 and len(dest[0].targets[0].elts) == 13 and not any(isinstance(e, ast.Starred) for e in dest[0].targets[0].elts), "R3", "KIDA:arity", (file, fn.lineno),
+                  "the numeric tail of a KIDA record has exactly 13 tokens", found=str(len(dest[0].targets[0].elts)) if dest else "none")
 
 
 # ------------------------------------------------------------------ Leeds
